@@ -400,7 +400,21 @@ def _break_words(prog, rep):
     LIM = ("param", 2, body.arg_names.get(2, "_2"))
     acc = models.returned_vec_root(prog, body)
     lms = [lm for lm in loop_models(prog, body) if lm.kind == "iter"]
-    if len(lms) != 1:
+    # `for piece in it { acc.push(piece) }` nested in the word loop is `acc.extend(it)`: a loop that visits every
+    # item of its source and whose every pass does nothing but push the item unchanged
+    push_all = {}
+    outer = [x for x in lms if not any(x is not y and x.blocks < y.blocks for y in lms)]
+    for x in lms:
+        if x in outer:
+            continue
+        xs = resolve_iter(prog, body, x.next_call[2][0], x.next_block)
+        trs = [t for t in loop_system(prog, body, x, [], [acc]) if t.kind == "back"]
+        from .util import early_exits
+        if xs is not None and trs and not early_exits(body, x) and all(
+                [(n, a[1]) for (_b, n, a, _r) in t.events] == [("Vec::push", x.item)] for t in trs):
+            push_all[x.header] = prog.simp(xs, body)
+    lms = outer
+    if len(lms) != 1 or len(push_all) + 1 != len([lm for lm in loop_models(prog, body) if lm.kind == "iter"]):
         raise AnchorMissing("break_words: expected one loop")
     lm = lms[0]
     src = resolve_iter(prog, body, lm.next_call[2][0], lm.next_block)
@@ -418,6 +432,10 @@ def _break_words(prog, rep):
         site = site_of_block(body, tr.path[-2])
         if gt in nfs:
             cases.add("break")
+            inner = [h for h in push_all if h in tr.path]
+            if inner and all(push_all[h] == ("call", BA, (w, LIM)) for h in inner) and len(inner) == 1 \
+                    and all(n == "Vec::push" for n, _a in evs):
+                evs = [("Extend::extend", ("call", BA, (w, LIM)))]     # the push-all loop over break_apart(limit)
             r.check(evs == [("Extend::extend", ("call", BA, (w, LIM)))], "break", "wider words are replaced by break_apart(limit) with the same limit",
                     str([(n, D(a)) for n, a in evs]), "for word.width > limit the result receives %s; expected extend(word.break_apart(limit))"
                     % [(n, D(a)) for n, a in evs], site=site)
